@@ -444,3 +444,169 @@ def e3(proj, rep):
     else:
         rep.violation('E3', f.qual, f'arms store `{va}` and `{vb}`: not a parity and its complement', m, b)
     return n
+
+
+# ------------------------------------------------------------------------------------------------ E4
+RULE_E4 = ('E4: group law of PauliOperator in the F2 encoding P = i^(2 b0 + b1) X^x Z^z (the convention the decoder pauli_F2_to_str uses). '
+           '__matmul__ must realise c = c1 + c2 + 2 (z1 . x2) mod 4: the overlap term is the dot product of the Z part of the LEFT factor with the X '
+           'part of the RIGHT factor, and the literal bit arithmetic (sum mod 2, carry (b1+b1\')//2 into b0) equals that law for all 32 combinations '
+           'of (b0,b1,b0\',b1\',overlap parity); inverse() must realise c -> -c + 2 (x . z) for all 8 combinations; commutate_with is the symplectic '
+           'form x1.z2 + z1.x2. The literal formulas are evaluated over their finite domain by the checker\'s own integer evaluator.')
+
+
+def _ieval(e, env):
+    """integer evaluation of a literal arithmetic expression over names in env (no repo code is executed)"""
+    if isinstance(e, ast.Constant) and isinstance(e.value, int):
+        return e.value
+    if isinstance(e, ast.Name):
+        return env[e.id]
+    if isinstance(e, ast.BinOp):
+        a, b = _ieval(e.left, env), _ieval(e.right, env)
+        if isinstance(e.op, ast.Add):
+            return a + b
+        if isinstance(e.op, ast.Sub):
+            return a - b
+        if isinstance(e.op, ast.Mult):
+            return a * b
+        if isinstance(e.op, ast.Mod):
+            return a % b
+        if isinstance(e.op, ast.FloorDiv):
+            return a // b
+    raise KeyError(ast.unparse(e))
+
+
+def _f2_slot(e, owner_names):
+    """classify `self.F2[0]`, `b.F2[1]`, `self.F2[2:2+n]`, `self.F2[(2+n):]` -> (owner, 'b0'|'b1'|'x'|'z')"""
+    if not (isinstance(e, ast.Subscript) and isinstance(e.value, ast.Attribute) and e.value.attr == 'F2' and isinstance(e.value.value, ast.Name)):
+        return None
+    owner = e.value.value.id
+    t = ast.unparse(e.slice).replace(' ', '').replace('self.num_qubit', 'n').replace('N0', 'n').replace('(', '').replace(')', '')
+    kind = {'0': 'b0', '1': 'b1', '2:2+n': 'x', '2+n:': 'z'}.get(t)
+    return (owner, kind) if kind else None
+
+
+def e4(proj, rep):
+    rep.rule('E4', RULE_E4)
+    m = proj.mod(MOD)
+    ci = proj.cls(f'{MOD}.PauliOperator')
+    n = 0
+    # ---------------- __matmul__
+    f = ci.methods['__matmul__'].node
+    other = [a.arg for a in f.args.args][1]
+    stmts = [s for s in f.body if isinstance(s, ast.Assign)]
+    dot = next((c for s in stmts for c in ast.walk(s.value) if isinstance(c, ast.Call) and ast.unparse(c.func).endswith('dot')), None)
+    n += 1
+    if dot is None or len(dot.args) != 2:
+        rep.undecided('E4', f'{ci.qual}.__matmul__[overlap]', 'overlap dot product not found', m, f)
+        n -= 1
+    else:
+        a, b = _f2_slot(dot.args[0], None), _f2_slot(dot.args[1], None)
+        if a is None or b is None:
+            rep.undecided('E4', f'{ci.qual}.__matmul__[overlap]', f'`{ast.unparse(dot)}` operands not recognised', m, dot)
+            n -= 1
+        elif {a, b} == {('self', 'z'), (other, 'x')}:
+            rep.ok('E4', f'{ci.qual}.__matmul__[overlap]', 'overlap = z(left) . x(right): moving Z^z1 past X^x2 gives (-1)^(z1.x2)', m, dot)
+        elif {a, b} == {('self', 'x'), (other, 'z')}:
+            rep.violation('E4', f'{ci.qual}.__matmul__[overlap]', f'`{ast.unparse(dot)}` uses x(left) . z(right): that is the sign of the convention Z^z X^x, the decoder '
+                          f'uses X^x Z^z - products of non-commuting operators get the opposite sign', m, dot)
+        else:
+            rep.violation('E4', f'{ci.qual}.__matmul__[overlap]', f'`{ast.unparse(dot)}` pairs {a} with {b}: not the Z part of the left factor with the X part of the right factor', m, dot)
+    # bit arithmetic: abstract the statements
+    n += 1
+    try:
+        names = {}
+        order = []
+        for s in stmts:
+            if isinstance(s.targets[0], ast.Name):
+                names[s.targets[0].id] = s.value
+                order.append(s)
+        sumname = next(k for k, v in names.items() if ast.unparse(v).replace(' ', '') in (f'(self.F2+{other}.F2)%2', f'({other}.F2+self.F2)%2'))
+        dotname = next(k for k, v in names.items() if any(c is dot for c in ast.walk(v)))
+        carry = next((k, v) for k, v in names.items() if isinstance(v, ast.BinOp) and isinstance(v.op, ast.FloorDiv))
+        upd = next(s for s in f.body if isinstance(s, ast.Assign) and isinstance(s.targets[0], ast.Subscript)
+                   and ast.unparse(s.targets[0]).replace(' ', '') == f'{sumname}[0]')
+
+        class Abs(ast.NodeTransformer):
+            def visit_Subscript(self, node):
+                sl = _f2_slot(node, None)
+                if sl and sl[1] in ('b0', 'b1'):
+                    return ast.Name(id=('L' if sl[0] == 'self' else 'R') + sl[1], ctx=ast.Load())
+                if ast.unparse(node).replace(' ', '') == f'{sumname}[0]':
+                    return ast.Name(id='S0', ctx=ast.Load())
+                return node
+        carry_e = Abs().visit(ast.parse(ast.unparse(carry[1]), mode='eval').body)
+        upd_e = Abs().visit(ast.parse(ast.unparse(upd.value), mode='eval').body)
+        bad = None
+        for Lb0 in (0, 1):
+            for Lb1 in (0, 1):
+                for Rb0 in (0, 1):
+                    for Rb1 in (0, 1):
+                        for t in (0, 1):
+                            env = {'Lb0': Lb0, 'Lb1': Lb1, 'Rb0': Rb0, 'Rb1': Rb1, 'S0': (Lb0 + Rb0) % 2, dotname: t}
+                            env[carry[0]] = _ieval(carry_e, env)
+                            nb0 = _ieval(upd_e, env)
+                            nb1 = (Lb1 + Rb1) % 2
+                            want = (2 * Lb0 + Lb1 + 2 * Rb0 + Rb1 + 2 * t) % 4
+                            if 2 * nb0 + nb1 != want and bad is None:
+                                bad = (Lb0, Lb1, Rb0, Rb1, t, 2 * nb0 + nb1, want)
+        if bad:
+            rep.violation('E4', f'{ci.qual}.__matmul__[phase bits]', f'for (b0,b1)=({bad[0]},{bad[1]}), (b0\',b1\')=({bad[2]},{bad[3]}), overlap parity {bad[4]} the literal '
+                          f'formulas give phase code {bad[5]} but c1+c2+2*overlap = {bad[6]} (mod 4): products carry the wrong power of i', m, upd)
+        else:
+            rep.ok('E4', f'{ci.qual}.__matmul__[phase bits]', 'sum mod 2 with carry (b1+b1\')//2 and the overlap parity into b0 equals c1+c2+2*overlap mod 4 (32 cases)', m, upd)
+    except (StopIteration, KeyError) as ex:
+        rep.undecided('E4', f'{ci.qual}.__matmul__[phase bits]', f'phase-bit statements not recognised ({ex})', m, f)
+        n -= 1
+    # ---------------- inverse
+    f = ci.methods['inverse'].node
+    n += 1
+    try:
+        upd = next(s for s in f.body if isinstance(s, ast.Assign) and isinstance(s.targets[0], ast.Subscript) and ast.unparse(s.targets[0].slice) == '0')
+        dot = next(c for c in ast.walk(upd.value) if isinstance(c, ast.Call) and ast.unparse(c.func).endswith('dot'))
+        a, b = _f2_slot(dot.args[0], None), _f2_slot(dot.args[1], None)
+        if {a, b} != {('self', 'x'), ('self', 'z')}:
+            rep.violation('E4', f'{ci.qual}.inverse', f'`{ast.unparse(dot)}` is not x . z of the operator itself', m, upd)
+        else:
+            class Abs2(ast.NodeTransformer):
+                def visit_Call(self, node):
+                    if node is dot or ast.unparse(node) == ast.unparse(dot):
+                        return ast.Name(id='T', ctx=ast.Load())
+                    return self.generic_visit(node)
+
+                def visit_Subscript(self, node):
+                    sl = _f2_slot(node, None)
+                    if sl and sl[1] in ('b0', 'b1'):
+                        return ast.Name(id=sl[1], ctx=ast.Load())
+                    return node
+            e = Abs2().visit(ast.parse(ast.unparse(upd.value), mode='eval').body)
+            bad = None
+            for b0 in (0, 1):
+                for b1 in (0, 1):
+                    for t in (0, 1):
+                        nb0 = _ieval(e, {'b0': b0, 'b1': b1, 'T': t})
+                        if (2 * nb0 + b1) % 4 != (-(2 * b0 + b1) + 2 * t) % 4 and bad is None:
+                            bad = (b0, b1, t)
+            if bad:
+                rep.violation('E4', f'{ci.qual}.inverse', f'for (b0,b1)={bad[:2]}, x.z parity {bad[2]} the literal formula does not give -c + 2 x.z (mod 4): P @ P.inverse() '
+                              f'is not the identity', m, upd)
+            else:
+                rep.ok('E4', f'{ci.qual}.inverse', 'b0 <- b0 + b1 + x.z equals c -> -c + 2 x.z mod 4 (8 cases)', m, upd)
+    except (StopIteration, KeyError) as ex:
+        rep.undecided('E4', f'{ci.qual}.inverse', f'update not recognised ({ex})', m, f)
+        n -= 1
+    # ---------------- commutate_with
+    f = ci.methods['commutate_with'].node
+    n += 1
+    dots = [c for c in ast.walk(f) if isinstance(c, ast.Call) and ast.unparse(c.func).endswith('dot')]
+    other = [a.arg for a in f.args.args][1]
+    pairs = sorted(tuple(sorted([_f2_slot(c.args[0], None) or ('?', '?'), _f2_slot(c.args[1], None) or ('?', '?')])) for c in dots)
+    want = sorted([tuple(sorted([('self', 'x'), (other, 'z')])), tuple(sorted([('self', 'z'), (other, 'x')]))])
+    if pairs == want and '%2==0' in ast.unparse(f).replace(' ', ''):
+        rep.ok('E4', f'{ci.qual}.commutate_with', 'x1.z2 + z1.x2 even', m, f)
+    elif len(dots) != 2:
+        rep.undecided('E4', f'{ci.qual}.commutate_with', 'symplectic form not recognised', m, f)
+        n -= 1
+    else:
+        rep.violation('E4', f'{ci.qual}.commutate_with', f'dot products pair {pairs}: the symplectic form is x1.z2 + z1.x2 (mod 2) == 0', m, f)
+    rep.count('E4.obligations', n)
+    return n
